@@ -63,7 +63,7 @@ with nl_apply :=
 with nll :=
   lazymatch goal with
   | |- Forall _ [] => apply Forall_nil
-  | |- Forall _ (_ :: _) => apply Forall_cons; [nl | nll]
+  | |- Forall _ (_ :: _) => first [assumption | apply Forall_cons; [nl | nll]]
   | |- Forall _ (rev _) => apply Forall_rev; nll
   | |- Forall _ (_ ++ _) => apply Forall_app; split; nll
   | |- Forall _ (match ?o with _ => _ end) => destruct o; nll
@@ -96,6 +96,10 @@ Ltac split_good H :=
   end.
 
 Ltac good_goal :=
+  repeat match goal with
+         | |- good (match ?x with _ => _ end) => destruct x
+         | |- good (let (_, _) := ?x in _) => destruct x
+         end;
   repeat (unfold good, good_prod, good_option, good_any, good_value, good_values, good_fields, good_mk, good_pend; cbn [fst snd]);
   lazymatch goal with
   | |- _ /\ _ => split; good_goal
@@ -108,7 +112,8 @@ Ltac good_goal :=
   | |- forall _, _ => intros; good_goal
   | |- _ => first [assumption | exact I]
   end.
-Ltac ok_goal := unfold RP; good_goal.
+Ltac good_hook := fail.
+Ltac ok_goal := unfold RP; first [solve [good_goal] | solve [good_hook] | idtac].
 
 (* ---------- primitives (Parse/Prim.v) ---------- *)
 Lemma RP_match_pats ps ts : RP (match_pats ps ts). Proof. unfold match_pats. destruct (peek_pats ps ts); exact I || reflexivity. Qed.
@@ -125,6 +130,7 @@ Lemma RP_as_int s : RP (as_int s). Proof. unfold as_int. destruct (py_int s); [e
 Create HintDb rp.
 #[global] Hint Resolve RP_match_pats RP_pop RP_pop_src RP_pop_children RP_peek_children RP_pop_split RP_close RP_int_of RP_as_int : rp.
 #[global] Hint Extern 1 (good _) => (unfold good; first [assumption | exact I | nl_unfold]) : rp.
+#[global] Hint Extern 2 (no_list _ = true) => (solve [nl]) : rp.
 #[global] Hint Extern 1 (good_option _ _) => (unfold good_option; first [assumption | exact I | nl]) : rp.
 
 Ltac split_all_good :=
@@ -135,9 +141,14 @@ Ltac split_all_good :=
          | H : True |- _ => clear H
          end.
 
+Ltac head_of t := lazymatch t with ?f _ => head_of f | _ => t end.
 Ltac callee_ho := fail.
 Ltac sweep :=
-  cbv zeta;
+  cbv beta zeta;
+  lazymatch goal with
+  | |- RP ?t => tryif (let h := head_of t in is_fix h) then first [assumption | solve [eauto 3 with rp] | idtac] else sweep_core
+  end
+with sweep_core :=
   lazymatch goal with
   | |- RP (Ok _) => ok_goal
   | |- RP (Err ParseErr) => reflexivity
@@ -152,6 +163,10 @@ Ltac sweep :=
   end
 with callee := first [ assumption | solve [eauto 3 with rp] | callee_ho | callee_struct ]
 with callee_struct :=
+  lazymatch goal with
+  | |- RP ?t => tryif (let h := head_of t in is_fix h) then fail else callee_struct2
+  end
+with callee_struct2 :=
   lazymatch goal with
   | |- RP (match _ with _ => _ end) => solve [sweep]
   | |- RP (Ok _) => solve [sweep]
@@ -308,4 +323,232 @@ Section BodySweep.
   Lemma RP_b_unary ts : RP (b_unary rec d ts). Proof. unfold b_unary. sweep. Qed.
   Lemma RP_b_compute ts : RP (b_compute rec d ts). Proof. unfold b_compute. sweep. Qed.
   Hint Resolve RP_b_case RP_b_sub_query RP_b_sub_value RP_b_general_parenthesis RP_b_element RP_b_unary RP_b_compute : rp.
+
+  Lemma nl_kw_node cls neg l r : no_list l = true -> no_list r = true -> no_list (kw_node cls neg l r) = true.
+  Proof. intros. unfold kw_node. nl. Qed.
+  Lemma nl_bin_node cls l r : no_list l = true -> no_list r = true -> no_list (bin_node cls l r) = true.
+  Proof. intros. unfold bin_node. nl. Qed.
+  Lemma RP_b_keyword_condition before ts : good before -> RP (b_keyword_condition rec d before ts).
+  Proof. intros Hb. unfold b_keyword_condition, kw_node. destruct before as [b|]; sweep. Qed.
+  Lemma RP_b_operator_condition ts : RP (b_operator_condition rec d ts).
+  Proof.
+    unfold b_operator_condition. sweep. apply RP_left_loop; [intros; sweep | | good_goal].
+    intros t0. destruct (peek_set compare_operator_set t0); [|good_goal].
+    pose proof (RP_parse_compare_operator t0) as H. destruct (parse_compare_operator t0) as [[o t']|]; [|good_goal].
+    destruct H as [Ho _]. good_goal.
+  Qed.
+  Lemma RP_b_logical_not ts : RP (b_logical_not rec d ts). Proof. unfold b_logical_not. sweep. Qed.
+  Lemma RP_layer cls sub kws ts : RP (layer rec d cls sub kws ts). Proof. unfold layer, bin_node. sweep. Qed.
+  Hint Resolve RP_b_keyword_condition RP_b_operator_condition RP_b_logical_not RP_layer : rp.
+  Lemma RP_b_logical_and ts : RP (b_logical_and rec d ts). Proof. apply RP_layer. Qed.
+  Lemma RP_b_logical_xor ts : RP (b_logical_xor rec d ts). Proof. apply RP_layer. Qed.
+  Lemma RP_b_logical_or ts : RP (b_logical_or rec d ts). Proof. apply RP_layer. Qed.
+  Lemma RP_b_order_by_column ts : RP (b_order_by_column rec d ts). Proof. unfold b_order_by_column. sweep. Qed.
+  Lemma RP_b_table_expression ts : RP (b_table_expression rec d ts). Proof. unfold b_table_expression. sweep. Qed.
+  Lemma RP_b_from_table ts : RP (b_from_table rec d ts). Proof. unfold b_from_table. sweep. Qed.
+  Lemma RP_b_select_column ts : RP (b_select_column rec d ts). Proof. unfold b_select_column. sweep. Qed.
+  Hint Resolve RP_b_logical_and RP_b_logical_xor RP_b_logical_or RP_b_order_by_column RP_b_table_expression RP_b_from_table RP_b_select_column : rp.
+  Lemma RP_b_select_clause ts : RP (b_select_clause rec d ts). Proof. unfold b_select_clause. sweep. Qed.
+  Lemma RP_b_from_clause ts : RP (b_from_clause rec d ts). Proof. unfold b_from_clause. sweep. Qed.
+  Lemma RP_b_lateral_view ts : RP (b_lateral_view rec d ts). Proof. unfold b_lateral_view. sweep. Qed.
+  Lemma RP_b_join_expression ts : RP (b_join_expression rec d ts). Proof. unfold b_join_expression. sweep. Qed.
+  Hint Resolve RP_b_select_clause RP_b_from_clause RP_b_lateral_view RP_b_join_expression : rp.
+  Lemma RP_b_join_clause ts : RP (b_join_clause rec d ts). Proof. unfold b_join_clause. sweep. Qed.
+  Lemma RP_b_where ts : RP (b_where rec d ts). Proof. unfold b_where. sweep. Qed.
+  Lemma RP_b_having ts : RP (b_having rec d ts). Proof. unfold b_having. sweep. Qed.
+  Lemma RP_b_grouping_sets ts : RP (b_grouping_sets rec d ts). Proof. unfold b_grouping_sets. sweep. Qed.
+  Hint Resolve RP_b_join_clause RP_b_where RP_b_having RP_b_grouping_sets : rp.
+  Lemma RP_b_group_by ts : RP (b_group_by rec d ts). Proof. unfold b_group_by. sweep. Qed.
+  Lemma RP_by_clause cls k1 k2 item ts : (forall t, RP (item t)) -> RP (by_clause cls k1 k2 item ts).
+  Proof. intros Hi. unfold by_clause. sweep. Qed.
+  Lemma RP_b_order_by ts : RP (b_order_by rec d ts). Proof. apply RP_by_clause. intros; sweep. Qed.
+  Lemma RP_b_sort_by ts : RP (b_sort_by rec d ts). Proof. apply RP_by_clause. intros; sweep. Qed.
+  Lemma RP_b_distribute_by ts : RP (b_distribute_by rec d ts). Proof. apply RP_by_clause. intros; sweep. Qed.
+  Lemma RP_b_cluster_by ts : RP (b_cluster_by rec d ts). Proof. apply RP_by_clause. intros; sweep. Qed.
+  Lemma nl_empty_with : no_list empty_with = true. Proof. reflexivity. Qed.
+  Hint Resolve RP_b_group_by RP_b_order_by RP_b_sort_by RP_b_distribute_by RP_b_cluster_by nl_empty_with : rp.
+  Lemma RP_b_with_table ts : RP (b_with_table rec d ts). Proof. unfold b_with_table. sweep. Qed.
+  Lemma RP_b_with_clause ts : RP (b_with_clause rec d ts). Proof. unfold b_with_clause. sweep. Qed.
+  Lemma RP_strip_parens : forall n inner stack, RP (strip_parens n inner stack).
+  Proof. induction n as [|n IH]; intros inner stack; cbn [strip_parens]; sweep. Qed.
+  Lemma RP_while_clause cond item : (forall t, RP (item t)) -> forall n ts acc, good acc -> RP (while_clause n cond item ts acc).
+  Proof. intros Hi. induction n as [|n IH]; intros ts acc Ha; cbn [while_clause]; sweep. Qed.
+  Hint Resolve RP_b_with_table RP_b_with_clause RP_strip_parens : rp.
+
+  Ltac callee_ho ::=
+    lazymatch goal with
+    | |- RP (sep_list _ _ _) => apply RP_sep_list; intros; sweep
+    | |- RP (sep_more _ _ _ _ _) => apply RP_sep_more; [intros; sweep | good_goal]
+    | |- RP (each_closed _ _) => apply RP_each_closed; intros; sweep
+    | |- RP (args_list _ _) => apply RP_args_list; intros; sweep
+    | |- RP (call_args _ _ _) => apply RP_call_args; intros; sweep
+    | |- RP (opt_list _ _ _) => apply RP_opt_list; intros; sweep
+    | |- RP (compute_loop _ _ _ _ _) => apply RP_compute_loop; [intros; sweep | good_goal | good_goal]
+    | |- RP (left_loop _ _ _ _ _) => apply RP_left_loop; [intros; sweep | intros; good_goal | good_goal]
+    | |- RP (while_clause _ _ _ _ _) => apply RP_while_clause; [intros; sweep | good_goal]
+    | |- RP (by_clause _ _ _ _ _) => apply RP_by_clause; intros; sweep
+    end.
+
+  Lemma RP_close_stack : forall l, RP (close_stack l).
+  Proof. induction l as [|x l IH]; cbn [close_stack]; [sweep|]. destruct l; sweep. Qed.
+  Hint Resolve RP_close_stack : rp.
+  Lemma RP_b_single_select w ts : good w -> RP (b_single_select rec d w ts).
+  Proof.
+    intros Hw. unfold b_single_select. destruct w as [w|]; [change (no_list w = true) in Hw|]; sweep.
+  Qed.
+  Lemma RP_union_loop wc : no_list wc = true -> forall n ts acc, good acc -> RP (union_loop rec d n wc ts acc).
+  Proof. intros Hw. induction n as [|n IH]; intros ts acc Ha; cbn [union_loop]; sweep. Qed.
+  Hint Resolve RP_b_single_select RP_union_loop : rp.
+  Lemma RP_b_select w ts : good w -> RP (b_select rec d w ts).
+  Proof. intros Hw. unfold b_select. destruct w as [w|]; [change (no_list w = true) in Hw|]; sweep. Qed.
+  Lemma RP_b_column_type ts : RP (b_column_type rec d ts). Proof. unfold b_column_type. sweep. Qed.
+  Hint Resolve RP_b_select RP_b_column_type : rp.
+
+  (* ---------- DDL ---------- *)
+  Lemma RP_partition_items one : (forall t, RP (one t)) -> forall l acc dy nd, good acc -> RP (partition_items one l acc dy nd).
+  Proof. intros Ho. induction l as [|sg l IH]; intros acc dy nd Ha; cbn [partition_items]; sweep. Qed.
+  Ltac callee_ho ::=
+    lazymatch goal with
+    | |- RP (sep_list _ _ _) => apply RP_sep_list; intros; sweep
+    | |- RP (sep_more _ _ _ _ _) => apply RP_sep_more; [intros; sweep | good_goal]
+    | |- RP (each_closed _ _) => apply RP_each_closed; intros; sweep
+    | |- RP (args_list _ _) => apply RP_args_list; intros; sweep
+    | |- RP (call_args _ _ _) => apply RP_call_args; intros; sweep
+    | |- RP (opt_list _ _ _) => apply RP_opt_list; intros; sweep
+    | |- RP (compute_loop _ _ _ _ _) => apply RP_compute_loop; [intros; sweep | good_goal | good_goal]
+    | |- RP (left_loop _ _ _ _ _) => apply RP_left_loop; [intros; sweep | intros; good_goal | good_goal]
+    | |- RP (while_clause _ _ _ _ _) => apply RP_while_clause; [intros; sweep | good_goal]
+    | |- RP (by_clause _ _ _ _ _) => apply RP_by_clause; intros; sweep
+    | |- RP (partition_items _ _ _ _ _) => apply RP_partition_items; [intros; sweep | good_goal]
+    end.
+  Lemma RP_b_partition already ts : RP (b_partition rec d already ts).
+  Proof. unfold b_partition. sweep. Qed.
+  Lemma RP_fk_action ts : RP (fk_action ts). Proof. unfold fk_action. sweep. Qed.
+  Lemma RP_name_list ts : RP (name_list ts). Proof. unfold name_list. sweep. Qed.
+  Hint Resolve RP_b_partition RP_fk_action RP_name_list : rp.
+  Lemma RP_b_foreign_key ts : RP (b_foreign_key ts). Proof. unfold b_foreign_key. sweep. Qed.
+  Lemma RP_index_column ts : RP (index_column ts). Proof. unfold index_column. sweep. Qed.
+  Hint Resolve RP_b_foreign_key RP_index_column : rp.
+  Lemma RP_index_columns ts : RP (index_columns ts). Proof. unfold index_columns. sweep. Qed.
+  Lemma RP_index_tail ts : RP (index_tail ts). Proof. unfold index_tail. sweep. Qed.
+  Hint Resolve RP_index_columns RP_index_tail : rp.
+  Lemma RP_b_index cls kws named ts : RP (b_index cls kws named ts). Proof. unfold b_index. sweep. Qed.
+  Lemma RP_b_generated ts : RP (b_generated rec d ts). Proof. unfold b_generated. sweep. Qed.
+  Hint Resolve RP_b_index RP_b_generated : rp.
+
+  Definition good_ca (a : colattrs) : Prop :=
+    no_list (ca_comment a) = true /\ no_list (ca_charset a) = true /\ no_list (ca_collate a) = true /\
+    no_list (ca_generated a) = true /\ no_list (ca_default a) = true /\ no_list (ca_on_update a) = true.
+  #[local] Instance good_colattrs : Good colattrs | 0 := good_ca.
+  Definition good_to (o : tblopts) : Prop :=
+    Forall (fun v => no_list v = true) (to_partitioned o) /\ no_list (to_comment o) = true /\ no_list (to_engine o) = true /\
+    no_list (to_auto_inc o) = true /\ no_list (to_charset o) = true /\ no_list (to_collate o) = true /\ no_list (to_row_format o) = true /\
+    no_list (to_stats o) = true /\ no_list (to_serde o) = true /\ no_list (to_delim o) = true /\ no_list (to_inputformat o) = true /\
+    no_list (to_outputformat o) = true /\ no_list (to_location o) = true /\ Forall (fun v => no_list v = true) (to_tblprops o).
+  #[local] Instance good_tblopts : Good tblopts | 0 := good_to.
+  Definition good_td (a : tbldefs) : Prop :=
+    Forall (fun v => no_list v = true) (td_columns a) /\ no_list (td_primary a) = true /\ Forall (fun v => no_list v = true) (td_unique a) /\
+    Forall (fun v => no_list v = true) (td_key a) /\ Forall (fun v => no_list v = true) (td_fulltext a) /\ Forall (fun v => no_list v = true) (td_foreign a).
+  #[local] Instance good_tbldefs : Good tbldefs | 0 := good_td.
+
+  Ltac rec_goal :=
+    unfold good, good_prod, good_any, good_colattrs, good_ca, good_tblopts, good_to, good_tbldefs, good_td in *;
+    cbv beta iota delta [fst snd ca_comment ca_charset ca_collate ca_generated ca_default ca_on_update
+         to_partitioned to_comment to_engine to_auto_inc to_charset to_collate to_row_format to_stats to_serde to_delim to_inputformat
+         to_outputformat to_location to_tblprops td_columns td_primary td_unique td_key td_fulltext td_foreign];
+    repeat split; first [assumption | reflexivity | exact I | nl | nll | intuition].
+  Ltac good_hook ::= rec_goal.
+  Hint Extern 1 (good (mkca _ _ _ _ _ _ _ _ _ _ _)) => rec_goal : rp.
+  Hint Extern 1 (good (mkto _ _ _ _ _ _ _ _ _ _ _ _ _ _ _)) => rec_goal : rp.
+  Hint Extern 1 (good (mktd _ _ _ _ _ _)) => rec_goal : rp.
+
+  Lemma RP_column_attrs : forall n a ts, good a -> RP (column_attrs rec d n a ts).
+  Proof.
+    induction n as [|n IH]; intros a ts Ha; cbn [column_attrs]; [reflexivity|].
+    pose proof Ha as Ha'. unfold good, good_colattrs, good_ca in Ha'. destruct Ha' as (H1 & H2 & H3 & H4 & H5 & H6).
+    sweep; try rec_goal.
+  Qed.
+  Hint Resolve RP_column_attrs : rp.
+  Lemma RP_b_define_column ts : RP (b_define_column rec d ts).
+  Proof.
+    unfold b_define_column. sweep.
+    all: match goal with H : good_colattrs _ |- _ => unfold good_colattrs, good_ca in H; destruct H as (H1 & H2 & H3 & H4 & H5 & H6) end.
+    all: good_goal.
+  Qed.
+  Hint Resolve RP_b_define_column : rp.
+  Lemma RP_b_column_or_index ts : RP (b_column_or_index rec d ts). Proof. unfold b_column_or_index. sweep. Qed.
+  Lemma RP_opt_partition ts : RP (opt_partition rec d ts). Proof. unfold opt_partition. sweep. Qed.
+  Lemma RP_values_loop : forall n ts acc, good acc -> RP (values_loop rec d n ts acc).
+  Proof. induction n as [|n IH]; intros ts acc Ha; cbn [values_loop]; sweep. Qed.
+  Hint Resolve RP_b_column_or_index RP_opt_partition RP_values_loop : rp.
+  Lemma RP_b_insert w ts : good w -> RP (b_insert rec d w ts).
+  Proof. intros Hw. unfold b_insert. destruct w as [w|]; [change (no_list w = true) in Hw|]; sweep. Qed.
+  Lemma RP_b_set ts : RP (b_set ts). Proof. unfold b_set. sweep. Qed.
+  Lemma RP_eq_value ts : RP (eq_value ts). Proof. unfold eq_value. sweep. Qed.
+  Hint Resolve RP_b_insert RP_b_set RP_eq_value : rp.
+
+  Lemma RP_table_options : forall n o ts, good o -> RP (table_options rec d n o ts).
+  Proof.
+    induction n as [|n IH]; intros o ts Ho; cbn [table_options]; [reflexivity|].
+    pose proof Ho as Ho'. unfold good, good_tblopts, good_to in Ho'.
+    destruct Ho' as (H1 & H2 & H3 & H4 & H5 & H6 & H7 & H8 & H9 & H10 & H11 & H12 & H13 & H14).
+    sweep; try rec_goal.
+  Qed.
+  Lemma RP_table_defs : forall segs a, good a -> RP (table_defs rec d segs a).
+  Proof.
+    induction segs as [|sg segs IH]; intros a Ha; cbn [table_defs]; [exact Ha|].
+    pose proof Ha as Ha'. unfold good, good_tbldefs, good_td in Ha'. destruct Ha' as (H1 & H2 & H3 & H4 & H5 & H6).
+    sweep; try rec_goal.
+  Qed.
+  Hint Resolve RP_table_options RP_table_defs : rp.
+  Lemma RP_b_create_table ts : RP (b_create_table rec d ts).
+  Proof.
+    unfold b_create_table. sweep.
+    all: repeat match goal with
+                | H : good_tblopts _ |- _ => unfold good_tblopts, good_to in H; decompose [and] H; clear H
+                | H : good_tbldefs _ |- _ => unfold good_tbldefs, good_td in H; decompose [and] H; clear H
+                end.
+    all: good_goal.
+  Qed.
+  Lemma RP_b_drop_table ts : RP (b_drop_table ts). Proof. unfold b_drop_table. sweep. Qed.
+  Lemma RP_b_analyze ts : RP (b_analyze rec d ts). Proof. unfold b_analyze. sweep. Qed.
+  Lemma RP_b_alter_expression ts : RP (b_alter_expression rec d ts). Proof. unfold b_alter_expression. sweep. Qed.
+  Lemma RP_b_alter_table ts : RP (b_alter_table rec d ts). Proof. unfold b_alter_table. sweep. Qed.
+  Lemma RP_table_stmt cls kws ts : RP (table_stmt cls kws ts). Proof. unfold table_stmt. sweep. Qed.
+  Lemma RP_b_use ts : RP (b_use ts). Proof. unfold b_use. sweep. Qed.
+  Lemma RP_update_set_column ts : RP (update_set_column rec d ts). Proof. unfold update_set_column. sweep. Qed.
+  Hint Resolve RP_b_create_table RP_b_drop_table RP_b_analyze RP_b_alter_expression RP_b_alter_table RP_table_stmt RP_b_use RP_update_set_column : rp.
+  Lemma RP_b_update w ts : good w -> RP (b_update rec d w ts).
+  Proof. intros Hw. unfold b_update. destruct w as [w|]; [change (no_list w = true) in Hw|]; sweep. Qed.
+  Lemma RP_b_delete ts : RP (b_delete rec d ts). Proof. unfold b_delete. sweep. Qed.
+  Lemma RP_b_show_columns ts : RP (b_show_columns rec d ts). Proof. unfold b_show_columns. sweep. Qed.
+  Hint Resolve RP_b_update RP_b_delete RP_b_show_columns : rp.
+  Lemma RP_b_statement ts : RP (b_statement rec d ts). Proof. unfold b_statement. sweep. Qed.
+  Hint Resolve RP_b_statement : rp.
+
+  Theorem RP_body f a ts : good a -> RP (body rec d f a ts).
+  Proof.
+    intros Ha. unfold body. destruct f; try solve [eauto 3 with rp];
+      first [ destruct a as [b|]; [apply RP_b_array_index; exact Ha|reflexivity]
+            | apply RP_b_keyword_condition; exact Ha
+            | apply RP_b_single_select; exact Ha
+            | apply RP_b_select; exact Ha
+            | apply RP_b_insert; exact Ha ].
+  Qed.
 End BodySweep.
+
+(* ---------- closing the recursion: every fuel, every function, every dialect, every token list ---------- *)
+Theorem RP_run : forall fuel f d a ts, good a -> RP (run fuel f d a ts).
+Proof.
+  induction fuel as [|n IH]; intros f d a ts Ha; cbn [run]; [reflexivity|].
+  apply RP_body; [|exact Ha]. intros f' d' a' ts' Ha'. apply IH. exact Ha'.
+Qed.
+
+Theorem RP_statements_loop : forall n fuel d ts acc, Forall (fun v => no_list v = true) acc ->
+  RP (statements_loop n fuel d ts acc).
+Proof.
+  induction n as [|n IH]; intros fuel d ts acc Ha; cbn [statements_loop]; [reflexivity|].
+  destruct (is_finish ts); [apply Forall_rev; exact Ha|].
+  pose proof (RP_run fuel F_statement d None ts I) as H. destruct (run fuel F_statement d None ts) as [[v t1]|e]; [|exact H].
+  destruct H as [Hv _]. destruct (take_str (S ";") t1) as [b t2]. apply IH. constructor; assumption.
+Qed.
